@@ -92,6 +92,17 @@ func (c27) Gen(r *sim.Rng, tier string) *scn.Scn {
 		mode = c27Pipe
 	}
 	s.P["mode"] = int64(mode)
+	if (mode == c27Cuts || mode == c27ReadErr) && n > 0 && r.Chance(1, 3) {
+		// One frame whose body does not parse (or parses to something else), the framing left intact:
+		// a stored byte flipped after the stream was written, or a message lacking a required field
+		// written with AllowPartial and read without. The stream must stay framed: the call for that
+		// frame fails (or yields what the damaged body decodes to), consumes the frame, and the frames
+		// after it are read back as written.
+		s.P["bad_frame"] = int64(1 + r.Intn(n))
+		s.P["bad_kind"] = int64(r.Intn(4)) // 0 first body byte := 0x07, 1 xor a byte, 2 last byte |= 0x80, 3 partial message
+		s.P["bad_pos"] = int64(r.Intn(1 << 20))
+		s.P["bad_xor"] = int64(1 + r.Intn(255))
+	}
 	if mode == c27Pipe {
 		var wops, rops []scn.Op
 		for i := range s.Objects {
@@ -116,6 +127,8 @@ type c27Frame struct {
 	start, hdr int
 	end        int
 	size       uint64
+	bad        bool // the body does not parse: the call for this frame must fail and consume the frame
+	partial    bool // written with AllowPartial
 }
 
 func c27Build(s *scn.Scn) ([]c27Frame, []byte) {
@@ -133,6 +146,20 @@ func c27Build(s *scn.Scn) ([]c27Frame, []byte) {
 			break // nothing can follow
 		}
 		m := gen.NewMsg(o.Type)
+		if s.P["bad_frame"] == int64(len(frames)+1) && s.P["bad_kind"] == 3 {
+			// a message that lacks a required field one level down, with some content so that the frame is not empty
+			m = gen.NewMsg("goproto.proto.test.TestRequiredForeign")
+			mr := m.ProtoReflect()
+			fds := mr.Descriptor().Fields()
+			mr.Mutable(fds.ByName("optional_message"))
+			if s.P["bad_pos"]%2 == 0 {
+				mr.Mutable(fds.ByName("repeated_message")).List().AppendMutable()
+			}
+			f.typ = "goproto.proto.test.TestRequiredForeign"
+			f.msg, f.bad, f.partial = m, true, true
+			frames = append(frames, f)
+			continue
+		}
 		if o.Size >= 0 {
 			r := sim.NewRng(o.Seed)
 			if o.Size <= 40 {
@@ -299,7 +326,13 @@ func (c27) Run(s *scn.Scn, x *sim.Exec) {
 			continue
 		}
 		f.start = len(out.b)
-		n, err := protodelim.MarshalTo(&out, f.msg)
+		var n int
+		var err error
+		if f.partial {
+			n, err = protodelim.MarshalOptions{MarshalOptions: proto.MarshalOptions{AllowPartial: true}}.MarshalTo(&out, f.msg)
+		} else {
+			n, err = protodelim.MarshalTo(&out, f.msg)
+		}
 		if err != nil {
 			x.Fail("marshalto-error", "MarshalTo into a plain buffer failed: %v", err)
 			return
@@ -328,6 +361,29 @@ func (c27) Run(s *scn.Scn, x *sim.Exec) {
 		}
 	}
 	stream = out.b
+	if bf := int(s.P["bad_frame"]); bf > 0 && bf <= len(frames) && s.P["bad_kind"] != 3 {
+		f := &frames[bf-1]
+		if f.msg != nil && f.size > 0 {
+			body := stream[f.start+f.hdr : f.end]
+			switch s.P["bad_kind"] {
+			case 0:
+				body[0] = 0x07 // field number 0, wire type 7
+			case 1:
+				body[int(s.P["bad_pos"])%len(body)] ^= byte(s.P["bad_xor"])
+			case 2:
+				body[len(body)-1] |= 0x80
+			}
+			x.Fault("flipped-stored-byte")
+			// what the damaged body decodes to, by the plain decoder with the same (default) options
+			m2 := f.msg.ProtoReflect().New().Interface()
+			if err := proto.Unmarshal(body, m2); err != nil {
+				f.bad = true
+			} else {
+				f.msg = m2
+				x.Probe("flipped-byte-still-parses", 1)
+			}
+		}
+	}
 	switch s.P["mode"] {
 	case c27Cuts:
 		for cut := 0; cut <= len(stream); cut++ {
@@ -406,11 +462,13 @@ func c27ReadAll(s *scn.Scn, x *sim.Exec, frames []c27Frame, rd *c27Reader, cut, 
 	optMax, effMax := c27MaxSize(s, frames)
 	opts := protodelim.UnmarshalOptions{MaxSize: optMax}
 	var got []proto.Message
+	var gotIdx []int
 	var reuse map[string]proto.Message
 	defer func() {
 		// C14, protodelim clause: messages returned earlier must not have
 		// changed while later frames went through the same reader buffer.
-		for i, m := range got {
+		for k, m := range got {
+			i := gotIdx[k]
 			if !proto.Equal(m, frames[i].msg) {
 				x.Fail("earlier-message-changed", "message %d returned by UnmarshalFrom changed after later reads on the same reader (aliases the reader's buffer?)", i)
 			}
@@ -459,6 +517,23 @@ func c27ReadAll(s *scn.Scn, x *sim.Exec, frames []c27Frame, rd *c27Reader, cut, 
 				c27ExpectTooLarge(x, err, f, effMax, rd, where)
 				return
 			}
+			if f.bad {
+				// complete frame, unparseable body: an error (not end-of-stream), and the frame is consumed
+				x.Probe("unparseable-frame", 1)
+				if err == nil {
+					x.Fail("bad-body-accepted", "%s: the frame's body does not parse (proto.Unmarshal rejects it) but UnmarshalFrom returned nil", where)
+					return
+				}
+				if err == io.EOF {
+					x.Fail("bad-body-eof", "%s: a complete frame with an unparseable body returned io.EOF", where)
+					return
+				}
+				if c := rd.consumed(); c != f.end {
+					x.Fail("bad-body-not-consumed", "%s: after the failed call %d bytes are consumed, the frame ends at %d: the stream is no longer framed", where, c, f.end)
+					return
+				}
+				continue
+			}
 			if err != nil {
 				x.Fail("complete-frame-rejected", "%s: complete frame returned error %v", where, err)
 				return
@@ -484,6 +559,7 @@ func c27ReadAll(s *scn.Scn, x *sim.Exec, frames []c27Frame, rd *c27Reader, cut, 
 				m = proto.Clone(m) // the target will be overwritten by the next read
 			}
 			got = append(got, m)
+			gotIdx = append(gotIdx, i)
 			continue
 		}
 		// frame i is absent or incomplete
